@@ -39,7 +39,7 @@ def mkwl():
     return wl
 
 
-def check_dir(r, step, name, sent, snd, rcv, ssock, wls, wlr):
+def check_dir(r, step, name, sent, snd, rcv, ssock, wls, wlr, susp=None):
     """Direction snd -> rcv. sent = everything tx-ed on snd so far."""
     K = bytes(ssock.accepted)
     D = bytes(rcv.rxbs)
@@ -50,10 +50,12 @@ def check_dir(r, step, name, sent, snd, rcv, ssock, wls, wlr):
         r.fail("C09/received-not-prefix", "%s after %s: received %d bytes that are not a prefix of the %d accepted: %r vs %r" % (
             name, step, len(D), len(K), D[-20:], K[:len(D)][-20:]))
         return False
-    if bytes(snd.txbs) != sent[len(K):]:
-        r.fail("C09/txbs-not-unsent-suffix", "%s after %s: txbs has %d bytes, unsent suffix has %d (accepted %d of %d)" % (
-            name, step, len(snd.txbs), len(sent) - len(K), len(K), len(sent)))
-        return False
+    if susp is not None and bytes(getattr(snd, "txbs", b"")) != sent[len(K):] and not susp.get("txbs"):
+        # How the endpoint keeps its unsent bytes is its own business (the statement speaks of what the peer receives):
+        # a pending buffer that is not the unsent suffix is only remembered here, and charged at the end of the case if -
+        # and only if - continued healthy servicing then fails to deliver everything.
+        susp["txbs"] = "%s after %s: txbs has %d bytes, unsent suffix has %d (accepted %d of %d)" % (
+            name, step, len(getattr(snd, "txbs", b"")), len(sent) - len(K), len(K), len(sent))
     lt = wls.readTx()
     if lt != K:
         r.fail("C09/wirelog-tx", "%s after %s: wire log tx has %d bytes, kernel accepted %d" % (name, step, len(lt or b""), len(K)))
@@ -81,6 +83,7 @@ def run_case(case):
     sent = {"a": b"", "b": b""}
     ntx = {"a": 0, "b": 0}
     interesting = False
+    susp = {}
     try:
         for i, op in enumerate(case["ops"]):
             kind, side = op[0], op[1]
@@ -103,9 +106,9 @@ def run_case(case):
             elif kind == "sro":
                 E.serviceReceiveOnce()
             step = "op %d %s" % (i, op[:2])
-            if not check_dir(r, step, "a->b", sent["a"], A, B, sa, wla, wlb):
+            if not check_dir(r, step, "a->b", sent["a"], A, B, sa, wla, wlb, susp):
                 return fin(r, case, interesting)
-            if not check_dir(r, step, "b->a", sent["b"], B, A, sb, wlb, wla):
+            if not check_dir(r, step, "b->a", sent["b"], B, A, sb, wlb, wla, susp):
                 return fin(r, case, interesting)
             if A.cutoff or B.cutoff:
                 r.fail("C09/healthy-connection-cut-off", "after %s cutoff a=%r b=%r" % (step, A.cutoff, B.cutoff))
@@ -119,8 +122,12 @@ def run_case(case):
             if not A.txbs and not B.txbs and not sa.inbuf and not sb.inbuf:
                 break
         if bytes(B.rxbs) != sent["a"] or bytes(A.rxbs) != sent["b"]:
-            r.fail("C09/not-all-delivered", "after %d healthy service rounds: a->b %d of %d, b->a %d of %d" % (
-                budget, len(B.rxbs), len(sent["a"]), len(A.rxbs), len(sent["b"])))
+            what = "after %d healthy service rounds: a->b %d of %d, b->a %d of %d" % (
+                budget, len(B.rxbs), len(sent["a"]), len(A.rxbs), len(sent["b"]))
+            if susp.get("txbs"):
+                r.fail("C09/txbs-not-unsent-suffix", "%s; first sign: %s" % (what, susp["txbs"]))
+            else:
+                r.fail("C09/not-all-delivered", what)
         else:
             check_dir(r, "final", "a->b", sent["a"], A, B, sa, wla, wlb) and \
                 check_dir(r, "final", "b->a", sent["b"], B, A, sb, wlb, wla)
